@@ -20,6 +20,7 @@ def _check_formula(R, f, want_atoms, tag, case):
         return
     mass = 0.0
     charge = 0
+    charge_scale = 0.0
     for a, n in want_atoms.items():
         import periodictable.core as core
         base = a.element if core.ision(a) else a
@@ -27,10 +28,12 @@ def _check_formula(R, f, want_atoms, tag, case):
         m = base.mass - q * K.electron_mass
         mass += n * m
         charge += n * q
+        charge_scale += abs(n * q)
     if not close(f.mass, mass, 1e-12, 1e-300):
         R.violation("sample:mass:%s:%s" % (tag, case["id"]), "mass is not the sum of count*atomic mass (ion = atom - charge*m_e)",
                     case, f.mass, mass)
-    if not close(f.charge, charge, 1e-12, 1e-12):
+    # positive and negative charges cancel: compare at the scale of the summands (A1 policy, DESIGN 2.7)
+    if abs(f.charge - charge) > 1e-12 * max(charge_scale, 1.0):
         R.violation("sample:charge:%s:%s" % (tag, case["id"]), "charge is not the sum of count*ion charge", case, f.charge, charge)
     if mass != 0:
         mf = f.mass_fraction
